@@ -341,7 +341,7 @@ class Scheduler:
         """move the virtual clock; every waiter whose deadline is reached leaves its wait list (timed out)"""
         if to < self.clock.now:
             raise SchedError("clock moves backwards")
-        self.clock.now = to
+        self.clock.now = int(to) if float(to).is_integer() else to
         expired = []
         for w in self.workers:
             if w.state == "wait" and w.deadline is not None and w in w.blocked_on.waiters and w.deadline <= to:
